@@ -171,6 +171,73 @@ def suite_uptime_test(ctx: Ctx) -> SuiteResult:
     return res
 
 
+def run_uptime_float_case(case):
+    """Float regime of the uptime clause (monitor only): the real global TimeController on an epoch-sized
+    virtual stdlib clock, a tiny time scale, the real `ControlThread.is_max_uptime_reached` polled at a
+    fixed real period like the control loop does, the other threads reading the clock in between. The limit
+    must be reported within one poll of U/s of real time (rounding may shift it by one more poll)."""
+    from unittest.mock import MagicMock
+    import pamiq_core.time as ptime
+    import c06
+    from pamiq_core.thread.threads.control import ControlThread
+    fake = c06.FakeStdTime()
+    fake.now = F(case["start"])
+    saved = (ptime._original_time, dict(ptime._time_controller.__dict__))
+    vs = []
+    try:
+        ptime._original_time = fake
+        ctl = ptime._time_controller
+        ctl.__init__()
+        scale, U, period = F(case["scale"]), F(case["limit"]), F(case["period"])
+        ctl.set_time_scale(float(scale))
+        ct = ControlThread(MagicMock(), max_uptime=float(U), web_api_address=None)
+        ct._system_start_time = ptime.time()
+        t0 = fake.now
+        due = U / scale
+        reached_at = None
+        n = int(due / period) + 4
+        for k in range(n):
+            for _ in range(case["reads_between"]):       # the other threads read the clock, too
+                fake.now += period / (case["reads_between"] + 1)
+                ptime.time()
+            fake.now = t0 + (k + 1) * period
+            if ct.is_max_uptime_reached:
+                reached_at = fake.now - t0
+                break
+        if reached_at is None:
+            vs.append(Violation("c08:uptime-float:never-reached",
+                                f"uptime limit {case['limit']} s at time scale {case['scale']}: not reported after "
+                                f"{float(n * period):.3f} s of real time (due after {float(due):.3f} s); the system "
+                                f"clock read {ptime.time()!r}", {"uptime_float": case}))
+        elif not (due - period <= reached_at <= due + 2 * period):
+            vs.append(Violation("c08:uptime-float:window",
+                                f"uptime limit reported after {float(reached_at):.4f} s of real time, due after "
+                                f"{float(due):.4f} s (poll period {float(period):.4f})", {"uptime_float": case}))
+    finally:
+        ptime._original_time = saved[0]
+        ptime._time_controller.__dict__.clear()
+        ptime._time_controller.__dict__.update(saved[1])
+    return vs
+
+
+def suite_uptime_float(ctx: Ctx) -> SuiteResult:
+    res = SuiteResult("uptime-float-regime",
+                      rule="epoch-sized real clock, time scales 2^-10 / 2^-13, uptime limits of 1-4 ms of system "
+                           "time, control loop polling every 2^-10 s with 0-7 clock reads of other threads in "
+                           "between; monitor only (IEEE rounding is not modelled); non-trivial = all")
+    for scale in ["1/1024", "1/8192"]:
+        for limit in ["1/1024", "1/256"]:
+            for rb in [0, 7]:
+                case = {"start": "1700000000", "scale": scale, "limit": limit, "period": "1/1024",
+                        "reads_between": rb}
+                vs = run_uptime_float_case(case)
+                res.evaluations += 1
+                res.nontrivial.add((scale, limit, rb))
+                res.violations += vs
+    res.sample(case)
+    return res
+
+
 def replay(ctx, payload):
     case = payload.get("case") or payload.get("first_disagreement")
     if "stats" in case:
@@ -178,6 +245,10 @@ def replay(ctx, payload):
         vs, d = run_stats_case(case["stats"], ctx.driver)
         res.violations, res.evaluations = vs, 1
         if d: res.disagreements.append(d)
+        return res
+    if "uptime_float" in case:
+        res = SuiteResult("replay")
+        res.violations, res.evaluations = run_uptime_float_case(case["uptime_float"]), 1
         return res
     if "uptime" in case:
         return suite_uptime_test(ctx)
@@ -198,7 +269,7 @@ if __name__ == "__main__":
         required_theorems=["Pamiq.Proto.only_stops_for_cause", "Pamiq.Proto.shutdown_call_needs_cause",
                            "Pamiq.Proto.exc_flag_needs_user_fault", "Pamiq.Bookkeep.stats_total",
                            "Pamiq.Bookkeep.uptime_window", "Pamiq.Bookkeep.stats_unguarded_raises"],
-        suites=[suite_stats, suite_uptime_test, *sys_suites],
+        suites=[suite_stats, suite_uptime_test, suite_uptime_float, *sys_suites],
         search=syscheck.make_search("C08", ["C08"]), replay=replay,
         assumptions=syscheck.PROTO_ASSUMPTIONS + [
             "other bookkeeping on the paths of launch() is covered by its own property: keeper popleft/rmtree "
